@@ -1,12 +1,12 @@
 SPECIFICATION Spec
 CONSTANTS
   TW = 2
-  MaxN = 9
+  MaxN = 6
   Deltas = {0, 1, 3}
   Guard1 = TRUE
   Guard4 = TRUE
   EdgeSlack = 0
-  ExpLess = 0
+  ExpLess = 1
   SizeFrom = "pub"
 INVARIANTS
   TypeOK
